@@ -10,6 +10,7 @@
 from __future__ import annotations
 
 import itertools
+import os
 import re
 from pathlib import Path
 
@@ -124,7 +125,8 @@ def build_tree(seq_py, seq_js, bare=None):
         t = []
         for i, L in enumerate(seq):
             # mode 'dup': every function of the file has the SAME name (overloads, several __init__): still one finding each
-            name = f"{fname[0]}dup" if bare == "dup" else f"{fname[0]}{i}"
+            # (the shared name is also LONG: a listing row is then wider than an 80-column terminal and must still be complete)
+            name = f"{fname[0]}dup_handler_for_the_incoming_request_with_a_descriptive_but_rather_long_name_{'x' * 30}" if bare == "dup" else f"{fname[0]}{i}"
             text += "\n" + gen(name, L)
             line += 1
             t.append((name, L, line))
@@ -288,6 +290,8 @@ def eval_nested(outer_own, inner_len, lang):
 
 
 def _block(block, agg):
+    # an 80-column terminal (a pipe, a CI log), in the environment before the first console of this fresh process is created
+    os.environ["COLUMNS"] = "80"
     kind, payload = block
     if kind == "nested":
         for outer_own, inner_len, lang in payload:
